@@ -71,6 +71,9 @@ def gen(ctx, model):
             add("gf128mul %s %s" % (a, b), "gf128mul:special")
     for i in range(60 if not thorough else 2000):
         add("gf128mul %s %s" % (r.bytes(16).hex(), r.bytes(16).hex()), "gf128mul:random")
+    for a in specials + [r.bytes(16).hex() for _ in range(20)]:
+        add("gf128x2 %s" % a, "gf128x2:%s" % ("special" if a in specials else "random"))
+        add("gf128one %s" % a, "gf128one:%s" % ("special" if a in specials else "random"))
     # ---------------- GHASH ----------------
     for al in (0, 1, 15, 16, 17, 32):
         for cl in LENS:
